@@ -260,7 +260,7 @@ def _apply(root: str, rel: str, old: str, new: str) -> str:
 
 
 def _mech(root: str, mode: str) -> str:
-    """Whole-tree mechanical refactoring (tools/mech_controls.py): rename every local / swap if-else / both."""
+    """Whole-tree mechanical refactoring (tools/mech_controls.py): rename every local, swap if-else, guard clauses -> nested else, conditional expressions -> statements, and combinations."""
     import importlib.util
     spec = importlib.util.spec_from_file_location('mech_controls', os.path.join(VERIF, 'tools', 'mech_controls.py'))
     mc = importlib.util.module_from_spec(spec)
@@ -345,7 +345,7 @@ def run(pid: str, seed: int, check) -> dict:
         for name in sorted(os.listdir(cd)):
             if name.endswith('.patch'):
                 jobs.append((pid, 'control', name[:-6], '', os.path.join(cd, name), '', None, root, base_keys))
-    for mode in ('rename', 'swapif', 'both'):
+    for mode in ('rename', 'swapif', 'both', 'nest', 'ifexp', 'all'):
         jobs.append((pid, 'mech', f'whole tree: {mode}', '', mode, '', None, root, base_keys))
     random.Random(seed).shuffle(jobs)
     with mp.Pool(min(16, max(1, len(jobs)))) as pool:
